@@ -8,6 +8,7 @@ From AS.Model Require Import Table Ops.
 From AS Require Import Effects.
 From AS.Model Require Import Sgr Render Scrub Parse FormatSpec.
 From AS.Proofs Require Import TableProofs SliceProofs PadProofs FormatSpecProofs.
+From AS.Proofs Require GenGuards.
 
 (* width not above the length: nothing happens *)
 Theorem C12_noop : forall s width fill ext, (width <= Z.of_nat (length (base s)))%Z ->
@@ -62,6 +63,14 @@ Theorem C12_center : forall (s : astr) (width : Z) (fill : char) (ext : bool),
   /\ wf r.
 Proof. exact center_spec. Qed.
 Print Assumptions C12_center.
+
+(* the division of the fill in center() (left = n div 2, right = n - left: the extra character of an odd surplus goes
+   to the right) IS the code's `left_spaces = math.floor(num / 2); right_spaces = num - left_spaces`, re-translated from
+   the Python source on every run (math.floor of a float quotient: the integer quotient for surpluses below 2^53) *)
+Theorem C12_center_split_is_code : forall n : nat,
+  AS.Gen.Fns.gen_center_split (Z.of_nat n) = (Z.of_nat (Nat.div2 n), Z.of_nat (n - Nat.div2 n)).
+Proof. exact GenGuards.center_split_is_code. Qed.
+Print Assumptions C12_center_split_is_code.
 
 (* ---------- the format specification  [string_format[:ansi_format]]  ----------
    string_format = [[fill][+|-]align][width]; the recognisers of Model/FormatSpec.v stand for the
